@@ -126,6 +126,17 @@ def decode_harness(first: int | None, n_records: int | None = None, sub: int | N
             I.assume(pdu.t[1] == sub)
         if n_records is not None:
             I.assume(models.seq_len(pdu.t) == 3 + 4 * n_records)
+        if n_records is not None and n_records >= 2:
+            # the listed finding (dict-backed list) concerns replies that list one DTC twice; the
+            # two cases are separate obligations so that any *other* loss is still reported
+            def dtc(i: int) -> Any:
+                return (pdu.t[3 + 4 * i] * 65536 + pdu.t[4 + 4 * i] * 256 + pdu.t[5 + 4 * i])
+            distinct = z3.And(*[dtc(i) != dtc(j) for i in range(n_records)
+                                for j in range(i + 1, n_records)])
+            if I.choose([distinct, z3.Not(distinct)]) == 1:
+                orig = I.prove
+                I.prove = lambda name, f, detail="": orig(  # type: ignore[method-assign]
+                    name + "{repeated-DTC}", f, detail)
         try:
             r = I.call(S.UDSResponse.parse_dynamic, pdu)
         except PyExc as e:
